@@ -180,7 +180,7 @@ Proof.
   intros G J HQ. pose proof (store_good c st bs G J) as H. unfold EV. destruct (store c st bs) as [st' r].
   destruct H as (G' & J' & R' & Hsh & Hp & _). spl; auto.
   - unfold shape in Hsh. injection Hsh as _ _ _ _ _ Ha _ _ _ _. exact Ha.
-  - intros p E. destruct (Hp p E) as (A & B & D). apply HQ; auto.
+  - intros p E. destruct (Hp p E) as (A & B & D & _). apply HQ; auto.
 Qed.
 
 Lemma collect_active st st' : shape st' = shape st -> active st' = active st.
@@ -859,7 +859,7 @@ Lemma unit_S fuel e st : unit_ c (S fuel) e st =
       match e with
       | ELit (Some a) bs =>
           if 255 <? zlen bs then errR st 15
-          else if var_start c <=? a then (st, Host host_Other)     
+          else if (var_start c <=? a) || (a <? code_start c) then (st, Host host_Other)     
           else retR st (OStr (zlen bs, a))
       | ELit None bs => doR (st1, p) <- store c st bs; retR st1 (OStr p)
       | ENum t z => retR st (ONum t z)
@@ -1209,9 +1209,10 @@ Proof.
   intros Hp Hlr e st G J. rewrite unit_S. destruct e.
   - (* literal *)
     destruct addr as [a|].
-    + destruct (255 <? zlen bs); [ev_done|]. destruct (var_start c <=? a) eqn:Ea.
+    + destruct (255 <? zlen bs); [ev_done|]. destruct ((var_start c <=? a) || (a <? code_start c)) eqn:Ea.
       * unfold EV. spl; auto using Rel_refl. intros; discriminate.
-      * apply EV_ret; auto. simpl. intros Hv. simpl in Hv. apply Z.leb_gt in Ea. lia.
+      * apply orb_false_iff in Ea as [Ea1 Ea2]. apply Z.leb_gt in Ea1. apply Z.ltb_ge in Ea2.
+        apply EV_ret; auto. simpl. split; simpl; intros Hv; lia.
     + ev_done.
   - ev_done.
   - cbv zeta. generalize (resolve st n). intros n'. destruct (is_strname n') eqn:En.
